@@ -78,7 +78,14 @@ def run(repo: Repo, tier: str) -> Report:
                 kw = {k.arg: ast.unparse(k.value).strip("'\"") for k in c.keywords}
                 side = kw.get("side", a[1].strip("'\"") if len(a) > 1 else "left")
                 calls.append((ast.unparse(c.func.value), a[0], side, c))
-    rep.floor("searchsorted lookups in get_calibration_indices", len(calls), 4)
+    if len(calls) < 4:
+        other = sorted({ast.unparse(c.func) for c in ast.walk(fn) if isinstance(c, ast.Call) and isinstance(c.func, ast.Attribute)
+                        and c.func.attr in ("slice_locs", "slice_indexer", "get_loc", "get_indexer", "get_slice_bound", "argmax", "argmin", "nonzero", "where")})
+        ob("R-FORMULA", UFILE, "get_calibration_indices", "start / stop are searchsorted(begin, 'left') / searchsorted(end, 'right') on the time values, for both arms",
+           False, f"only {len(calls)} of 4 searchsorted lookups remain; index lookups now used: {other} - label-based index APIs resolve partial date strings to whole "
+           f"days/months and need not agree with the comparison begin <= t <= end that the recorded attributes use", fn.body[-1])
+    else:
+        rep.floor("searchsorted lookups in get_calibration_indices", len(calls), 4)
     # grouped arm: inside `if groups is not None`
     garm = [s for s in fn.body if isinstance(s, ast.If) and norm_stmt(s.test) == f"{grp_p} is not None"]
     if len(garm) != 1:
@@ -237,6 +244,19 @@ def run(repo: Repo, tier: str) -> Report:
        and ast.unparse(grp_call[0].targets[0]) == ci, f"{norm_stmt(grp_call[0]) if grp_call else None}", grp_call[0] if grp_call else "cal_indices = ...")
     ob("R-BIND", AFILE, "PixelAlgorithms.spi", "grouped site passes (data, groups, num_groups, nodata, cal_indices)",
        [ast.unparse(a) for a in sg.args] == ["self._obj", "groups", "num_groups", "nodata", ci], f"{[ast.unparse(a) for a in sg.args]}", "gammastd_grp args")
+    # explicit casts of kernel arguments agree with the kernel's declared element type (a narrower cast wraps the dense group ids)
+    kg = kernel(kernels, "gammastd_grp")
+    n_casts = 0
+    for st in ast.walk(m):
+        if isinstance(st, ast.Assign) and isinstance(st.targets[0], ast.Name) and isinstance(st.value, ast.Call) and isinstance(st.value.func, ast.Attribute) \
+                and st.value.func.attr == "astype" and st.targets[0].id in [ast.unparse(a) for a in sg.args[1:]]:
+            pos = [ast.unparse(a) for a in sg.args].index(st.targets[0].id)
+            want = sorted({sig[pos][0] for sig in kg.sigs})
+            got = st.value.args[0].value if st.value.args and isinstance(st.value.args[0], ast.Constant) else ast.unparse(st.value.args[0]) if st.value.args else None
+            ob("R-BIND", AFILE, "PixelAlgorithms.spi", f"`{st.targets[0].id}` is cast to the element type gammastd_grp declares for it", [got] == want,
+               f"cast to {got}; the kernel declares {want} (a narrower type wraps group ids / indices beyond its range)", st)
+            n_casts += 1
+    rep.note(f"explicit casts of grouped-site arguments checked: {n_casts}")
     # attributes
     upd = None
     for c in ast.walk(m):
@@ -280,5 +300,7 @@ def run(repo: Repo, tier: str) -> Report:
         oks = bool(sca) and all(s.idx_key == mask for s in sca) and any(s.rhs.key() == f"{buf[0]}[:]" for s in sca if buf)
         ob("R-FORMULA", SFILE, "gammastd_grp", "results are scattered through the index they were gathered with", oks,
            f"stores into the output: {[(s.idx_key, s.rhs.key()) for s in sca]}; gather mask {mask}", sca[-1].stmt if sca else "scatter")
+    from ..rules import r_truthy
+    r_truthy(rep, repo, "PixelAlgorithms", "spi", ["nodata"], "0 is a legitimate nodata value (it is the one the test-suite uses); a truth test silently replaces or drops it")
     rep.floor("C09 obligations", len(rep.obls), 25)
     return rep
